@@ -120,6 +120,23 @@ def run(ctx, config='rel-all'):
                 ctx.ok('R1', 'grow_zeroed zero-fills exactly [size(old)..] of the grown block', 'fill(index_mut(block, size(old)..), 0)')
             else:
                 ctx.violation('R1', fn, 'zero-tail', 'grow_zeroed must fill exactly block[old_layout.size()..] with 0', body.get('span'))
+            # ... on EVERY successful return: what is returned is the grown (and filled) block, and no path from the grow call
+            # reaches a return around the fill except through the failure edge of grow's result
+            if calls and fills:
+                grown = calls[0].ret
+                gp = [arena.pointer_of(t) for t, _ in arena.success_payloads(I, type('R', (), {'ret': grown, 'ret_state': res.ret_state})())]
+                stray = [t for t, _ in pays if arena.pointer_of(t) not in gp]
+                g = I.cfg(body)
+                err_edges = set()
+                for e in res.events:
+                    if e.kind == 'branch' and len(e.stack) == 1 and any(f[0] == 'is' and f[2] in ('Err', 'Break') for f in e.extra['added']):
+                        err_edges.add((e.block, e.extra['target']))
+                around = set(g.returns()) & g.reach([calls[0].block], avoid_blocks=[fills[0].block], avoid_edges=err_edges)
+                early = [bi for bi in g.returns() if not g.can_reach(calls[0].block, bi)] if len(g.returns()) > 1 else []
+                if not stray and not around and not early:
+                    ctx.ok('R1', 'grow_zeroed: every successful return hands out the block that grow returned, after the zero fill', 'payload identity + must-pass-through(fill) on the paths from the grow call')
+                else:
+                    ctx.violation('R1', fn, 'zero-tail:every-path', 'grow_zeroed has a successful return that does not go through grow + the zero fill (%s)' % ('block from another source: ' + show(stray[0])[:80] if stray else 'a path around the fill'), body.get('span'))
     val = A.get('Allocator::deallocate')
     if val:
         I, res, body = val
